@@ -18,6 +18,7 @@ from .. import refbacktest as rb
 from . import session as sw
 
 NAME = "rebal"
+ISOLATE = "fork"
 PROPS = ("C09", "C10", "C11", "C19")
 CHUNK = {"quick": 25, "thorough": 25}
 RULE = ("(sizer kind, optimiser kind, universe kind, rebalance instant open/closed, relation of the alpha's asset set "
@@ -371,6 +372,17 @@ def _run(plan, ctx):
             exc = e
         ctx.event("rebalance", t, sorted(weights.items()), type(exc).__name__ if exc else len(orders))
         wanted_assets = set(uni_ref) | set(held) | set(weights)
+        # ---- C19: what the universe object yields, before and after the construction model used it ----
+        if ctx.judging("C19") and uk != "scripted":
+            got_u = list(uni.get_assets(ts(t)))
+            if uk == "static":
+                ctx.check("C19", got_u == list(cfg["universe"]), "static_universe_not_its_configured_list",
+                          lambda: {"t": iso(t), "yields": got_u, "configured": cfg["universe"], "held": held},
+                          sig="static_universe_not_its_configured_list")
+            else:
+                ctx.check("C19", sorted(got_u) == sorted(uni_ref), "universe_membership_differs_from_entry_dates",
+                          lambda: {"t": iso(t), "yields": sorted(got_u), "expected": sorted(uni_ref)},
+                          sig="universe_membership_differs_from_entry_dates")
         nan_assets = [a for a in wanted_assets if qb.bid_ask(a)[1] != qb.bid_ask(a)[1]]
         # ---- C19: the optimiser seam ----
         if ctx.judging("C19") and len(opt_calls) > n_o:
@@ -432,9 +444,10 @@ def _run(plan, ctx):
             if target is None:
                 ctx.violate("C09", "rebalance_without_sizing", {"t": iso(t)})
                 raise StopRun()
-            ctx.check("C09", set(target) == wanted_assets, "target_asset_set_not_universe_held_weighted",
-                      lambda: {"t": iso(t), "target": sorted(target), "universe": sorted(uni_ref), "held": held,
-                               "weighted": sorted(weights)}, sig="target_asset_set_not_universe_held_weighted")
+            stray = [a for a, q in target.items() if a not in wanted_assets and q != 0]
+            ctx.check("C09", not stray, "target_for_asset_outside_universe_held_weighted",
+                      lambda: {"t": iso(t), "assets": stray, "target": target, "universe": sorted(uni_ref), "held": held,
+                               "weighted": sorted(weights)}, sig="target_for_asset_outside_universe_held_weighted")
             exp = [(a, target.get(a, 0) - held.get(a, 0)) for a in sorted(set(target) | set(held))
                    if target.get(a, 0) - held.get(a, 0) != 0]
             got = [(o.asset, o.quantity) for o in orders]
